@@ -302,7 +302,7 @@ Record P1ok (d : det) (m : msg) (p : p1) : Prop := {
   p1_msg : MsgOk (p_emap p) (p_msg p);
   p1_pub : forall L, In L (all_lcs (p_emap p)) -> inb (l_id L) (p_buf p) = false -> Vis (vis d) L;
   p1_pend : Forall (fun o => exists y, o = PEmpty y /\ y < p_nid p /\ ~ In y (ids (p_emap p))) (p_pend p);
-  p1_out : forall x, In x (p_out p) -> Good (x, vis d)
+  p1_out : forall x, In x (p_out p) -> Good (x, vis d) /\ MsgOk (p_emap p) x
 }.
 
 Lemma rev_eq_cons {A} (l : list A) x r : rev l = x :: r -> l = rev r ++ [x].
@@ -521,7 +521,7 @@ Proof.
         destruct (remove_id (l_id L') (buffered d)) as [|b bs] eqn:Ebuf;
           constructor; cbn [p_emap p_q p_buf p_nid p_msg p_out p_tr p_pend]; auto; try lia.
         -- intros x [].
-        -- intros x Hx. destruct (Hq' x Hx) as [L0 [H0 [E0 E0']]].
+        -- intros x Hx. split; [|apply Hq'; exact Hx]. destruct (Hq' x Hx) as [L0 [H0 [E0 E0']]].
            apply (mk_good _ _ L0 E0 E0'); [apply Hfr'; exact H0|apply Hpub'; [exact H0|reflexivity]].
         -- intros x [].
 Qed.
@@ -604,6 +604,7 @@ Proof.
   assert (Hnid : 0 < p_nid (phase1 d m)) by (destruct HI; lia).
   assert (Hflushed : Forall Good (map (fun x => (x, vis d)) (p_out (phase1 d m)))).
   { apply Forall_forall. intros x Hx. apply in_map_iff in Hx. destruct Hx as [x0 [<- Hx0]]. apply Out. exact Hx0. }
+  assert (Out' : forall x, In x (p_out (phase1 d m)) -> Good (x, vis d)) by (intros x Hx; apply Out; exact Hx).
   assert (Hcout : Forall Good (c_out c)) by (apply Forall_forall; exact Cout).
   destruct (c_buf c) as [|b bs] eqn:Eb.
   - unfold regular_refresh.
